@@ -58,7 +58,7 @@ import re
 from lib.core import exc_name, idset
 
 ID = "C06"
-CASES = {"quick": 2400, "thorough": 120000}
+CASES = {"quick": 4000, "thorough": 120000}
 BUDGET_S = {"quick": 45, "thorough": 700}
 RULE = ("histories of index/reindex/unindex+index/unindex/reset (keyword, facet: also optimize() and "
         "tree_threshold changes over {1,2,3}, rarely 64) per index kind (field, keyword, facet, text with Okapi and cosine back "
@@ -121,6 +121,46 @@ def _tail(cmds, ids, fresh=True, numdocs=False):
 
 def _index_verb(rng):
     return rng.choice(["index", "index", "reindex", "unreindex"])
+
+
+BULK_SHARE = 0.1
+_MUT = ("index", "reindex", "unindex", "reset", "optimize", "setthr", "indexstr")
+
+
+def _from_bulk(rng, cmds0, numdocs=False, fresh=True):
+    """size-dependent bookkeeping: the mutating commands of a bulk history of C01 / C02 / C13 (70-400 documents, one
+    posting with at least 65 docids or 35-110 distinct values, optionally > 120 withdrawn documents, a drain back
+    to ~64, a small history) with this property's probes: rarely while the bulk is loaded, the full tuple and the
+    fresh-index comparison once it is, then after every third operation"""
+    muts = [c for c in cmds0 if c[0] in _MUT]
+    k = 0
+    while k < len(muts) and muts[k][0] == "index":
+        k += 1
+    ids = sorted({c[1] for c in muts[k:] if c[0] in ("index", "reindex", "unindex")})[:40] or [muts[0][1]]
+    cmds = []
+    for i, c in enumerate(muts):
+        if i >= k and c[0] in ("index", "reindex") and rng.random() < 0.3:
+            c = [_index_verb(rng)] + list(c[1:])
+        cmds.append(c)
+        if i < k - 1:
+            if rng.random() < 0.01:
+                cmds.append(["obs"])
+        elif i == k - 1:
+            cmds.append(["obs"])
+            cmds.append(["obsfresh"])
+            if numdocs:
+                cmds.append(["numdocs"])
+        elif rng.random() < 0.35:
+            d = c[1] if c[0] in ("index", "reindex", "unreindex", "unindex") else rng.choice(ids)
+            cmds.append(["obs"])
+            if rng.random() < 0.1:
+                cmds.append(["obsfresh"])
+            if rng.random() < 0.5:
+                cmds.append(["repr", d])
+            if numdocs and rng.random() < 0.3:
+                cmds.append(["numdocs"])
+    _tail(cmds, ids, fresh=fresh, numdocs=numdocs)
+    return cmds
 
 
 class _Base(object):
@@ -245,11 +285,18 @@ def _hist_features(case, outs, value_class):
 # =====================================================================================================
 def gen_field(rng, tier):
     fam = rng.choice([32, 64])
+    vtype = rng.choice(c01.VTYPES)
+    if rng.random() < (0.3 if vtype in ("wide", "widestr") else BULK_SHARE):
+        kind = "wide" if vtype in ("wide", "widestr") and rng.random() < 0.7 else "hot"
+        cfg = [["cfg", "family", fam], ["cfg", "vtype", vtype], ["cfg", "disc", rng.choice(["attr", "callable"])],
+               ["cfg", "mode", "bulk-" + kind]]
+        return {"session": "field", "cfg": cfg,
+                "cmds": _from_bulk(rng, c01.gen_bulk(rng, tier, fam, vtype, kind), fresh=False)}
     ids = (c01.IDS32 if fam == 32 else c01.IDS64)
     if rng.random() < 0.6:
         ids = ids[:rng.randrange(2, 8)]
     nvals = rng.randrange(1, 7)
-    used = sorted(rng.sample(range(len(c01.INT_POOL)), nvals))
+    used = sorted(rng.sample(range(len(c01.pool_of(vtype))), nvals))
     maxlen = 40 if tier == "quick" or rng.random() < 0.9 else 300
     cmds = []
     for _ in range(rng.randrange(4, maxlen)):
@@ -265,7 +312,7 @@ def gen_field(rng, tier):
             cmds.append([_index_verb(rng), d, rng.choice(used)])
         _probes(rng, cmds, d, ids, fresh=False)
     _tail(cmds, ids, fresh=False)
-    cfg = [["cfg", "family", fam], ["cfg", "vtype", rng.choice(["int", "str"])],
+    cfg = [["cfg", "family", fam], ["cfg", "vtype", vtype],
            ["cfg", "disc", rng.choice(["attr", "callable"])]]
     return {"session": "field", "cfg": cfg, "cmds": cmds}
 
@@ -288,7 +335,11 @@ class FieldObs(_Base):
 
 
 def features_field(case, outs):
-    return _hist_features(case, outs, lambda v: "none" if v == ["none"] else "val")
+    f = _hist_features(case, outs, lambda v: "none" if v == ["none"] else "val")
+    cfg = cfgdict(case)
+    f += ["field:vtype:%s" % cfg.get("vtype"), "field:mode:%s" % cfg.get("mode", "small")]
+    f += ["field:" + x for x in c01.size_features(case, lambda c: "none" if c[2] == "none" else (c[2],))[0]]
+    return f
 
 
 KIND["field"] = dict(gen=gen_field, impl=FieldObs, features=features_field,
@@ -304,10 +355,19 @@ KW_THRS = [1, 1, 2, 2, 3, 3, 64]
 
 def gen_keyword(rng, tier):
     fam = rng.choice([32, 64])
+    vtype = rng.choice(c02.VTYPES)
+    if rng.random() < (0.3 if vtype in ("wide", "widestr") else BULK_SHARE):
+        kind = "wide" if vtype in ("wide", "widestr") and rng.random() < 0.6 else "hot"
+        cfg = [["cfg", "family", fam], ["cfg", "vtype", vtype], ["cfg", "disc", rng.choice(["attr", "callable"])],
+               ["cfg", "mode", "bulk-" + kind]]
+        if rng.random() >= 0.6:         # otherwise the class default tree_threshold
+            cfg.append(["cfg", "thr", rng.choice(c02.BULK_THRS)])
+        return {"session": "keyword", "cfg": cfg,
+                "cmds": _from_bulk(rng, c02.gen_bulk(rng, tier, fam, vtype, kind), numdocs=True)}
     ids = (c02.IDS32 if fam == 32 else c02.IDS64)
     if rng.random() < 0.7:
         ids = ids[:rng.randrange(2, 8)]
-    used = sorted(rng.sample(range(len(c02.STR_POOL)), rng.randrange(2, 6)))
+    used = sorted(rng.sample(range(len(c02.pool_of(vtype))), rng.randrange(2, 6)))
     maxlen = 40 if tier == "quick" or rng.random() < 0.9 else 300
     cmds = []
     cur = {}                                # docid -> keyword set (documents with at least one keyword)
@@ -344,7 +404,7 @@ def gen_keyword(rng, tier):
             cur[d] = set(new)
         _probes(rng, cmds, d, ids, numdocs=True)
     _tail(cmds, ids, numdocs=True)
-    cfg = [["cfg", "family", fam], ["cfg", "vtype", rng.choice(["int", "str"])],
+    cfg = [["cfg", "family", fam], ["cfg", "vtype", vtype],
            ["cfg", "disc", rng.choice(["attr", "callable"])], ["cfg", "thr", rng.choice(KW_THRS)]]
     return {"session": "keyword", "cfg": cfg, "cmds": cmds}
 
@@ -358,7 +418,8 @@ def parse_ooset(r):
     if not m:
         return None
     try:
-        return list(ast.literal_eval("[" + m.group(1) + "]"))
+        # repr(float('inf')) is not a literal: 1e999 is
+        return list(ast.literal_eval("[" + re.sub(r"\binf\b", "1e999", m.group(1)) + "]"))
     except (ValueError, SyntaxError):
         return None
 
@@ -367,15 +428,16 @@ class KeywordObs(_Base):
     def __init__(self, hyp, cfg):
         import BTrees
         from hypatia.keyword import KeywordIndex
-        self.pool = c02.STR_POOL if cfg.get("vtype", "str") == "str" else c02.INT_POOL
-        self.rank = {repr(v): i for i, v in enumerate(self.pool)}
+        self.pool = c02.pool_of(cfg.get("vtype", "str"))
+        self.rank = c02.rank_table(cfg.get("vtype", "str"))
         fam = BTrees.family32 if cfg.get("family") == 32 else BTrees.family64
         if cfg.get("disc") == "callable":
             disc = lambda obj, default: getattr(obj, "x", default)  # noqa: E731
         else:
             disc = "x"
         self.idx = KeywordIndex(disc, family=fam)
-        self.idx.tree_threshold = int(cfg.get("thr", 64))
+        if "thr" in cfg:                # otherwise the class default (modelled as 64)
+            self.idx.tree_threshold = int(cfg["thr"])
 
         def mk():
             f = KeywordIndex(disc, family=fam)
@@ -390,8 +452,8 @@ class KeywordObs(_Base):
         self.n += 1
         if toks == ["none"]:
             return o
-        kws = [self.pool[r] for r in toks]
-        o.x = kws if self.n % 2 else tuple(kws)
+        kws = [self.pool[r][(self.n + i) % len(self.pool[r])] for i, r in enumerate(toks)]
+        o.x = kws if self.n % 2 else set(kws) if kws and self.n % 6 == 0 else tuple(kws)
         return o
 
     def uv(self, idx):
@@ -429,7 +491,13 @@ def features_keyword(case, outs):
     def cls(v):
         return "none" if v == ["none"] else "[]" if not v else "kw"
     f = _hist_features(case, outs, cls)
-    f.append("thr0:%s" % c02.cfgdict(case).get("thr"))
+    cfg = c02.cfgdict(case)
+    f.append("thr0:%s" % cfg.get("thr", "class-default"))
+    f += ["keyword:vtype:%s" % cfg.get("vtype"), "keyword:mode:%s" % cfg.get("mode", "small")]
+    sf, mp = c01.size_features(case, lambda c: "none" if c[2:] == ["none"] else tuple(set(c[2:])) or None)
+    f += ["keyword:" + x for x in sf]
+    if mp >= 65 and "thr" not in cfg:
+        f.append("keyword:posting>=65-under-default-threshold")
     cur = {}
     for c in case["cmds"]:
         if c[0] in ("index", "reindex", "unreindex") and c[2:] != ["none"] and c[2:]:
@@ -470,6 +538,13 @@ def gen_facet(rng, tier):
         facets = rng.sample(c13.FACET_POOL, rng.randrange(1, 7))
     if rng.random() < 0.1:
         facets.append(facets[0])
+    if rng.random() < BULK_SHARE:
+        cfg = [["cfg", "facets"] + [c13.enc(f) for f in facets], ["cfg", "family", fam],
+               ["cfg", "disc", rng.choice(["attr", "callable"])], ["cfg", "mode", "bulk"]]
+        if rng.random() >= 0.6:         # otherwise the class default tree_threshold
+            cfg.append(["cfg", "thr", rng.choice(c13.BULK_THRS)])
+        return {"session": "facet", "cfg": cfg,
+                "cmds": _from_bulk(rng, c13.gen_bulk(rng, tier, fam, facets), numdocs=True)}
     maxlen = 40 if tier == "quick" or rng.random() < 0.9 else 300
     cmds = []
     last = {}
@@ -528,7 +603,8 @@ class FacetObs(_Base):
             disc = "x"
         facets = [c13.dec(t) for t in cfg.get("facets", [])]
         self.idx = FacetIndex(disc, facets, family=fam)
-        self.idx.tree_threshold = int(cfg.get("thr", 64))
+        if "thr" in cfg:                # otherwise the class default (modelled as 64)
+            self.idx.tree_threshold = int(cfg["thr"])
 
         def mk():
             f = FacetIndex(disc, facets, family=fam)
@@ -593,6 +669,21 @@ def features_facet(case, outs):
             a != b and b.startswith(a + ":") for a in m for b in m) else "match-many"
     f = _hist_features(case, outs, cls)
     f.append("nfacets:%d" % len(fs))
+    cfg = c13.cfgdict(case)
+    f += ["facet:mode:%s" % cfg.get("mode", "small"), "facet:thr0:%s" % cfg.get("thr", "class-default")]
+
+    def listed(c):
+        if c[2:] == ["none"] or c[2:] == ["unit"]:
+            return "none"
+        m = set()
+        for p in c[2:]:
+            segs = c13.dec(p).split(":")
+            m.update(":".join(segs[:i]) for i in range(1, len(segs) + 1) if ":".join(segs[:i]) in fs)
+        return tuple(m) or None
+    sf, mp = c01.size_features(case, listed)
+    f += ["facet:" + x for x in sf]
+    if mp >= 65 and "thr" not in cfg:
+        f.append("facet:posting>=65-under-default-threshold")
     return f
 
 
